@@ -104,3 +104,83 @@ fn c10_lax_compose() {
     std::mem::forget(f);
     std::mem::forget(g);
 }
+
+/// C09: quotient on a 3-node state with two pending pairs (symbolic identifiers and labels)
+#[kani::proof]
+#[kani::unwind(8)]
+fn c09_quotient() {
+    let nodes: [u8; 3] = kani::any();
+    let (a, b, c, d) = (any_id(3), any_id(3), any_id(3), any_id(3));
+    let (s0, t0, e0, e1) = (any_id(3), any_id(3), any_id(3), any_id(3));
+    let f0: OpenHypergraph<u8, u8> = OpenHypergraph {
+        sources: vec![s0],
+        targets: vec![t0],
+        hypergraph: Hypergraph { nodes: nodes.to_vec(), edges: vec![7], adjacency: vec![Hyperedge { sources: vec![e0], targets: vec![e1] }], quotient: (vec![a, c], vec![b, d]) },
+    };
+    let mut f = f0.clone();
+    let r = f.quotient();
+    // classes of the two pairs by relaxation of a label array
+    let mut cls = [0usize, 1, 2];
+    let mut round = 0;
+    while round < 3 {
+        let mut k = 0;
+        while k < 2 {
+            let (x, y) = if k == 0 { (a.0, b.0) } else { (c.0, d.0) };
+            let (p, q) = (cls[x], cls[y]);
+            let m = if p < q { p } else { q };
+            let mut i = 0;
+            while i < 3 {
+                if cls[i] == p || cls[i] == q {
+                    cls[i] = m;
+                }
+                i += 1;
+            }
+            k += 1;
+        }
+        round += 1;
+    }
+    let mut consistent = true;
+    let mut i = 0;
+    while i < 3 {
+        consistent &= nodes[i] == nodes[cls[i]];
+        i += 1;
+    }
+    match r {
+        Ok(q) => {
+            assert!(consistent);
+            assert!(q.table.0.len() == 3);
+            let k = f.hypergraph.nodes.len();
+            let mut i = 0;
+            while i < 3 {
+                assert!(q.table.0[i] < k);
+                assert!(f.hypergraph.nodes[q.table.0[i]] == nodes[i]);
+                let mut j = 0;
+                while j < 3 {
+                    assert!((q.table.0[i] == q.table.0[j]) == (cls[i] == cls[j]));
+                    j += 1;
+                }
+                i += 1;
+            }
+            assert!(f.sources[0].0 == q.table.0[s0.0] && f.targets[0].0 == q.table.0[t0.0]);
+            assert!(f.hypergraph.adjacency[0].sources[0].0 == q.table.0[e0.0] && f.hypergraph.adjacency[0].targets[0].0 == q.table.0[e1.0]);
+            assert!(f.hypergraph.quotient.0.is_empty() && f.hypergraph.quotient.1.is_empty());
+            assert!(f.hypergraph.edges.len() == 1 && f.hypergraph.edges[0] == 7);
+        }
+        Err(_) => {
+            assert!(!consistent);
+            // a failed quotient leaves the diagram exactly as it was
+            assert!(f.hypergraph.nodes.len() == 3);
+            let mut i = 0;
+            while i < 3 {
+                assert!(f.hypergraph.nodes[i] == nodes[i]);
+                i += 1;
+            }
+            assert!(f.sources[0] == s0 && f.targets[0] == t0);
+            assert!(f.hypergraph.adjacency[0].sources[0] == e0 && f.hypergraph.adjacency[0].targets[0] == e1);
+            assert!(f.hypergraph.quotient.0.len() == 2 && f.hypergraph.quotient.0[0] == a && f.hypergraph.quotient.1[1] == d);
+        }
+    }
+    kani::cover!(true);
+    std::mem::forget(f);
+    std::mem::forget(f0);
+}
